@@ -754,7 +754,7 @@ func (ex *Exec) binop(st *State, fr *Frame, op token.Token, a, b Val, ta, tb typ
 			return Sc{ex.vc.Fresh("strcmp", SBool), SBool}
 		}
 	case x.S.IsBV():
-		signed := isSigned(ta)
+		signed := isSigned(ta) || kindOf(ta) == KTime // instants are signed counts
 		w := x.S.Width()
 		pick := func(s, u string) string {
 			if signed {
